@@ -114,6 +114,10 @@ def r2(ctx):
 
     ki, vi = idx_of(i[1]["args"][1]), idx_of(i[1]["args"][2])
     if ki != [0] or vi != [1]:
+        # cut by position: key = &p[..i], value = &p[i + 1..] with i = position of the first '='
+        if split_part(b, i[1]["args"][1], ord("=")) == 0 and split_part(b, i[1]["args"][2], ord("=")) == 1:
+            ki, vi = [0], [1]
+    if ki != [0] or vi != [1]:
         # iterator form: key = it.next(), value = it.next() on one splitn(2, b'=') iterator, key taken first
         def next_of(o):
             # `let (Some(k), Some(v)) = (it.next(), it.next()) else ..` / `let Some(k) = it.next() else ..`: the payload of
